@@ -401,6 +401,17 @@ func main() {
 			fatal(fmt.Errorf("run <pkg> <func>"))
 		}
 		doRun(fs.Arg(0), fs.Arg(1), *workers, *trace, *assign, *maxpaths)
+	case "crosscheck":
+		// crosscheck <ID> [maxpaths]: explore every quick harness of the property (capped) with
+		// z3 4.8.12, z3 5.1.0 and cvc5 and compare what they decide
+		if len(os.Args) < 3 {
+			fatal(fmt.Errorf("crosscheck <ID> [maxpaths]"))
+		}
+		mp := 400
+		if len(os.Args) > 3 {
+			mp, _ = strconv.Atoi(os.Args[3])
+		}
+		os.Exit(doCrosscheck(os.Args[2], mp))
 	case "replay":
 		if len(os.Args) < 4 {
 			fatal(fmt.Errorf("replay <ID> <assignment.json>"))
@@ -453,6 +464,65 @@ func doRun(rel, fn string, workers int, trace bool, assign string, maxpaths int)
 		p := fmt.Sprintf("/tmp/symgo-viol-%d.json", k)
 		os.WriteFile(p, b, 0o644)
 	}
+}
+
+// doCrosscheck explores the quick harnesses of a property with three solvers, single worker
+// and a path cap (so that the explored prefix of the path tree is the same), and compares
+// paths, feasibility verdicts and violations.
+func doCrosscheck(id string, maxpaths int) int {
+	hs, files, err := scanHarnesses()
+	if err != nil {
+		fatal(err)
+	}
+	var sel []*Harness
+	relSet := map[string]bool{}
+	for _, h := range hs {
+		if h.ID == id && h.Tiers["quick"] {
+			sel = append(sel, h)
+			relSet[h.Pkg] = true
+		}
+	}
+	var rels []string
+	for r := range relSet {
+		rels = append(rels, r)
+	}
+	sort.Strings(rels)
+	l := load(rels, buildOverlay(rels, files, hs, false))
+	bad := 0
+	for _, h := range sel {
+		f := l.pkgs[h.Pkg].Func(h.Func)
+		type sum struct {
+			paths, completed, infeasible, sat, unsat, unknown, errors, viol int
+			secs                                                       float64
+		}
+		var got []sum
+		kinds := []string{"z3", "z3-new", "cvc5"}
+		for _, k := range kinds {
+			res := interp.Explore(l.pkgs[h.Pkg], f, interp.Options{Workers: 1, MaxPaths: maxpaths, Solver: k})
+			got = append(got, sum{res.Paths, res.Completed, res.Infeasible, res.Solver.Sat, res.Solver.Unsat, res.Solver.Unknown, res.Solver.Errors, len(res.Violations), res.Solver.Time.Seconds()})
+		}
+		same := true
+		for k := 1; k < len(got); k++ {
+			a, b := got[0], got[k]
+			if a.paths != b.paths || a.completed != b.completed || a.infeasible != b.infeasible || a.sat != b.sat || a.unsat != b.unsat || a.viol != b.viol || b.unknown != 0 || b.errors != 0 {
+				same = false
+			}
+		}
+		status := "AGREE"
+		if !same {
+			status = "DISAGREE"
+			bad++
+		}
+		fmt.Printf("%s %s", status, h.Func)
+		for k, g := range got {
+			fmt.Printf(" | %s paths=%d sat=%d unsat=%d unknown=%d errors=%d viol=%d %.1fs", kinds[k], g.paths, g.sat, g.unsat, g.unknown, g.errors, g.viol, g.secs)
+		}
+		fmt.Println()
+	}
+	if bad > 0 {
+		return 1
+	}
+	return 0
 }
 
 // doReplay re-runs one recorded counterexample natively against /repo's
